@@ -3,6 +3,7 @@ import ast
 import itertools
 from .core import AnalysisError, KINDS
 from .guards import Ctx, A, Not, And, Or, atoms_of, ev, literals, show_f
+from .terms import RF
 from .summ import Summarizer, State, Sym, ListV, DictV, BoolV, vkey, show_value
 from .effects import EditHooks, GuardedSummarizer, method_paths, classify_store
 from . import sysrules
@@ -75,6 +76,59 @@ def _uniq(nm):
     return "not (%s in %s or %s in %s.values())" % (nm, NODES, nm, RAILS)
 
 
+def _mentions(v, pred):
+    """does the symbolic value contain a sub-value satisfying pred?"""
+    if pred(v):
+        return True
+    if isinstance(v, Sym):
+        return any(_mentions(x, pred) for x in v.key)
+    if isinstance(v, (tuple, list)):
+        return any(_mentions(x, pred) for x in v)
+    items = getattr(v, "items", None)
+    if isinstance(items, (list, tuple)):
+        return any(_mentions(x, pred) for x in items)
+    return False
+
+
+def unique_resolved_parents(guards):
+    """`parent` may name a component by its name or by its rail, so two different strings can be one component.  The obligation is met when,
+    on the path, either parent is not a list, or some comparison of len(X) with len(set(X)) has been decided in favour of 'all distinct'
+    where the elements of X are *resolved* components (results of _get_index over the elements of parent).  The comparison is recognised by
+    what it says (it must hold when both counts are equal and fail when the set is smaller), not by how it is spelled."""
+    lits = {}
+    for g in guards:
+        literals(g, True, lits)
+    if lits.get(("ISA", Sym(("name", "parent")), Sym(("name", "list")))) is False:
+        return True
+    for key, val in lits.items():
+        if key[0] not in ("POS", "ZP"):
+            continue
+        ats = list(key[1].atoms())
+        ln = [a for a in ats if isinstance(a, tuple) and len(a) == 2 and isinstance(a[1], Sym) and a[1].key[0] == "len"]
+        full = [a for a in ln if not (isinstance(a[1].key[1], Sym) and a[1].key[1].key[0] == "set")]
+        sets = [a for a in ln if isinstance(a[1].key[1], Sym) and a[1].key[1].key[0] == "set"]
+        if len(ats) != 2 or len(full) != 1 or len(sets) != 1 or sets[0][1].key[1].key[1] != full[0][1].key[1]:
+            continue
+        coll = full[0][1].key[1]
+        resolved = _mentions(coll, lambda x: isinstance(x, Sym) and x.key[0] == "call" and x.key[1] == "self._get_index"
+                             and _mentions(x.key[2], lambda y: y == Sym(("name", "parent"))))
+        if not resolved:
+            continue
+
+        def holds(nfull, nset):
+            t = key[1].subst({full[0]: RF.const(nfull), sets[0]: RF.const(nset)})
+            if not t.is_const():
+                return None
+            c = t.const_value()
+            return (c > 0) if key[0] == "POS" else (c == 0)
+        a, b = holds(3, 3), holds(3, 2)
+        if a is None or b is None:
+            continue
+        if (a == val) and (b != val):
+            return True
+    return False
+
+
 OBLIGATIONS = {
     # method: [(id, reason, [alternative reference conditions - any one implied suffices])]
     "__init__": [   # the constructor establishes the invariant the edit methods preserve (registries start empty)
@@ -94,7 +148,8 @@ OBLIGATIONS = {
         ("parent-exists", "every link goes to an existing component",
          ['(isinstance(parent, list) and (ELEM(parent) in %s or ELEM(parent) in %s.values())) or (not isinstance(parent, list) and (parent in %s or parent in %s.values()))' % (NODES, RAILS, NODES, RAILS)]),
         ("multi-parent-only-pmux", "only a PMux has more than one parent", ["not isinstance(parent, list) or comp._component_type == _ComponentTypes.PMUX"]),
-        ("no-duplicate-parents", "only a PMux has more than one parent / links are unique", ["not isinstance(parent, list) or not (len(parent) > len(set(parent)))"]),
+        ("no-duplicate-parents", "only a PMux has more than one parent / links are unique: no component is listed twice, whether by its name or by its rail",
+         [unique_resolved_parents]),
         ("parent-admits-type", "every link is one add_comp would accept (loads have no children, sources are roots)",
          ['(isinstance(parent, list) and comp._component_type in self._g[self._get_index(ELEM(parent))]._child_types) or (not isinstance(parent, list) and comp._component_type in self._g[self._get_index(parent)]._child_types)']),
         ("single-pmux", "there is at most one PMux",
@@ -146,6 +201,9 @@ def obligation_formulas(model, r, mname, fn):
     for oid, reason, alts in OBLIGATIONS[mname]:
         fs = []
         for text in alts:
+            if callable(text):
+                fs.append(text)
+                continue
             node = ast.parse(text, mode="eval").body
             fs.append(sm.cond(node, State(env)))
         out.append((oid, reason, fs))
@@ -172,7 +230,7 @@ def c14_obligations(model, rep, r):
                 g = prefix_guards(lf, mname == "__init__")
                 good = False
                 for f in fs:
-                    imp, al = implies(g, f)
+                    imp = f(g) if callable(f) else implies(g, f)[0]
                     if imp:
                         good = True
                         break
@@ -185,7 +243,7 @@ def c14_obligations(model, rep, r):
                 first = witness.events[first_effect_index(witness)]
                 rep.violation("R1", "system.System.%s" % mname, where,
                               "obligation '%s' (%s) is not established before the first modification on the accepting path {%s}; required: %s" % (
-                                  oid, reason, show_f(And(*prefix_guards(witness)))[:400], " | ".join(show_f(f) for f in fs)[:300]),
+                                  oid, reason, show_f(And(*prefix_guards(witness)))[:400], " | ".join((f.__doc__.split(".")[0] if callable(f) else show_f(f)) for f in fs)[:300]),
                               "obligation " + oid)
             rep.instance("R1", "system.System.%s obligation %s" % (mname, oid), where, ok, "%d accepting paths" % len(accepted))
             total += 1
